@@ -50,7 +50,7 @@ def planted_frame(rng, idx, n):
 def one_run(params):
     seed = params["seed"]
     rng = random.Random(params["rseed"])
-    out = {"violations": [], "nontrivial": [], "stats": {"hostile_answers": 0, "planted_unmatched": 0, "client_exits": 0, "reached_tunnel": 0},
+    out = {"violations": [], "nontrivial": [], "stats": {"hostile_answers": 0, "planted_unmatched": 0, "client_exits": 0, "reached_tunnel": 0, "runs_with_hostile_lazyoff_answer": 0},
            "evaluations": 0, "sets": {}}
     sim = scen.Sim("c06-%d" % params["idx"], seed)
     try:
@@ -78,7 +78,16 @@ def one_run(params):
                     elif step == params["step"] and (c[step] == params["occurrence"] or (params["persist"] == "same-step" and c[step] >= params["occurrence"])):
                         hostile = True
                 else:
-                    hostile = step in ("P", "D") and rng.random() < params["p_hostile"]
+                    if step in ("P", "D"):
+                        state["tunnel_q"] = state.get("tunnel_q", 0) + 1
+                    lazyoff = step == "O" and state.get("tunnel_q", 0) > 0     # the client switching lazy mode off in mid-tunnel
+                    if params.get("starve") and step in ("P", "D") and state["tunnel_q"] > 3 and not state.get("lazyoff_seen"):
+                        if rng.random() < 0.93:
+                            return None           # a relay that swallows queries: the client will try to leave lazy mode
+                    if lazyoff:
+                        state["lazyoff_seen"] = True
+                        step = "LAZYOFF"
+                    hostile = (step in ("P", "D") and rng.random() < params["p_hostile"]) or (lazyoff and rng.random() < 0.9)
                 if not hostile:
                     return default
                 state["triggered"] = True
@@ -91,7 +100,7 @@ def one_run(params):
                 if q is None:      # raw login step
                     d = hostile_cli.gen(rng, hs.queries[-1] if hs.queries else _dummy_q(), "raw", step, ctx)
                 else:
-                    d = hostile_cli.gen(rng, q, cls, step, ctx)
+                    d = hostile_cli.gen(rng, q, cls, "O" if step == "LAZYOFF" else step, ctx)
                 state["hostile"] += 1
                 state["classes"].add(cls)
                 state["steps"].add(step)
@@ -189,6 +198,7 @@ def one_run(params):
                     k.offer_tun("srv", proto.make_frame("10.9.0.1", "10.9.0.2", 1000 + ident, rng.choice([40, 200, 1000]), "random", rng), ident)
         out["evaluations"] = state["hostile"] + out["stats"]["planted_unmatched"]
         out["stats"]["hostile_answers"] = state["hostile"]
+        out["stats"]["runs_with_hostile_lazyoff_answer"] = int("LAZYOFF" in state["steps"])
         h = sim.health(c)
         wit = {"seed": seed, "client_options": client_opts(params), "steps_seen": [s for s, _t in (hs.steps if hs else [])][-12:]}
         if h == "stalled":
@@ -220,7 +230,7 @@ def one_run(params):
         out["sets"]["client_outcomes"] = {h.split(":")[0] + (":tunnel" if in_tunnel_t else ":handshake")}
         if params["idx"] < 4:
             out["sample"] = {"kind": kind, "options": client_opts(params), "target_step": params.get("step"), "class": params.get("cls"),
-                             "hostile_answers": state["hostile"], "planted": len(planted), "client": h, "reached_tunnel": bool(in_tunnel_t),
+                             "hostile_answers": state["hostile"], "planted": len(planted), "client": h, "lazyoff_answered": "LAZYOFF" in state["steps"], "reached_tunnel": bool(in_tunnel_t),
                              "virtual_s": round(k.now / 1e6, 1)}
         return out
     finally:
@@ -265,6 +275,11 @@ def gen_params(rng, i, seed):
     else:
         p["p_hostile"] = rng.choice([0.1, 0.4, 0.9, 1.0])
         p["focus"] = hostile_cli.CLASSES[(i // 5) % len(hostile_cli.CLASSES)]
+        if kind == "tunnel" and rng.random() < 0.4:
+            p["starve"] = True                 # answers dry up: the client falls back to -I1, then leaves lazy mode in mid-tunnel
+            p["tunnel_s"] = 58
+            p["lazy0"] = False
+            p["p_inject"] = 0                  # (spoofed answers would count as answers received)
     return p
 
 
@@ -272,7 +287,7 @@ def run(ctx):
     res = core.Result()
     res.rule = ("scenario = real iodine client (all -T incl. autodetect, -O, raw on/off, -L, -m, -M) against (a) a model server "
                 "answering one handshake step (each of qtype probe, V, L, I, raw login, Z, Y, S, O, R, N in turn; 1st..5th "
-                "occurrence; once / every time / everything afterwards) from one of 17 hostile classes (arbitrary bytes, truncation "
+                "occurrence; once / every time / everything afterwards; and the lazy-mode-off exchange a starved client starts in mid-tunnel) from one of 19 hostile classes (arbitrary bytes, truncation "
                 "at every byte, RDLENGTH lies, 4-64 KB RDATA, 250+ MX/SRV records, odd preferences, bad TXT chunking, name loops and "
                 "pointers to the end, all codec prefix letters, empty answers, payload sizes at every parser buffer boundary, "
                 "step-specific hostile payloads (challenge 0/0x7FFFFFFF/0x80000000/0xFFFFFFFF, huge numeric fields, 4096-byte names "
